@@ -45,8 +45,8 @@ class UpdateExtractor(BaseExtractor):
                 continue
 
             if tgt_flag:
-                if segment.type == "keyword":
-                    # UPDATE ONLY tab (postgres), the table is yet to come
+                if segment.type in ("keyword", "bracketed"):
+                    # UPDATE ONLY tab (postgres), UPDATE TOP (10) tab (tsql): the table is yet to come
                     continue
                 if write_table := self.find_table(segment):
                     holder.add_write(write_table)
